@@ -407,7 +407,33 @@ def holds(conds, pred):
     return False
 
 
-def unalias(func_node, expr, depth=3):
+def unalias_block(func_node, block, depth=3):
+    """Deep copy of `block` (an AST) in which loads of single-assignment locals of `func_node` are replaced by
+    their defining expressions, and the defining assignments themselves are dropped: two copies of the same
+    code that differ only in such named locals become structurally equal."""
+    import copy
+    single = unalias(func_node, None, as_node='defs')
+
+    class Sub(ast.NodeTransformer):
+        def __init__(self, d):
+            self.d = d
+
+        def visit_Name(self, n):
+            if isinstance(n.ctx, ast.Load) and n.id in single and self.d > 0 and \
+                    not any(isinstance(x, ast.Name) and x.id == n.id for x in ast.walk(single[n.id])):
+                return Sub(self.d - 1).visit(copy.deepcopy(single[n.id]))
+            return n
+
+        def visit_Assign(self, n):
+            if len(n.targets) == 1 and isinstance(n.targets[0], ast.Name) and n.targets[0].id in single:
+                return None
+            return self.generic_visit(n)
+    out = Sub(depth).visit(copy.deepcopy(block))
+    ast.fix_missing_locations(out)
+    return out
+
+
+def unalias(func_node, expr, depth=3, as_node=None):
     """Source text of `expr` with every local name that is assigned exactly once (plain name = value)
     replaced by its value."""
     defs = {}
@@ -437,6 +463,8 @@ def unalias(func_node, expr, depth=3):
     for a in getattr(getattr(func_node, 'args', None), 'args', []) or []:
         defs.setdefault(a.arg, []).extend([None, None])
     single = {k: v[0] for k, v in defs.items() if len(v) == 1 and v[0] is not None}
+    if as_node == 'defs':
+        return single
 
     class Sub(ast.NodeTransformer):
         def __init__(self, d):
